@@ -1091,6 +1091,14 @@ func ruleCaptureClear(p *Program, r *Report) {
 						if st.Node == ast.Node(c.as) {
 							return 1
 						}
+						// another clearing of the same field ends the hand-over that this capture started
+						if as2, isAs := st.Node.(*ast.AssignStmt); isAs && st.Node != ast.Node(cl.as) && s != 0 {
+							for i2, l2 := range as2.Lhs {
+								if fieldOf(info, l2) == c.field && i2 < len(as2.Rhs) && isNil(info, as2.Rhs[i2]) {
+									return 0
+								}
+							}
+						}
 						if s == 1 {
 							for _, call := range callsIn(st.Node) {
 								if kind, isMu := isMutexMethod(calleeName(info, call)); isMu && (kind == "Unlock" || kind == "RUnlock") {
@@ -1107,6 +1115,10 @@ func ruleCaptureClear(p *Program, r *Report) {
 					},
 				})
 				st, ok := sol.Before(cl.as)
+				if ok && st == 0 {
+					n--
+					continue // this clearing does not belong to that capture
+				}
 				r.Check(ok && st != 2, cl.as, fi.Name+" clears "+c.text+" in the critical section that captured it", "no unlock of "+mu+" between `"+exprStr(c.as.Lhs[0])+" := "+c.text+"` and `"+c.text+" = nil`",
 					c.text+" is captured at "+p.Pos(c.as)+" and set to nil only after "+mu+" was released in between: what another goroutine stores there meanwhile is wiped out and never served (its waiter blocks forever)")
 			}
